@@ -189,7 +189,8 @@ enum Op {
     Register { worker: String },
     Heartbeat { worker: String, events: u64 },
     Deregister { worker: String },
-    Deploy { group: String, pipelines: Vec<(String, Option<String>)> },
+    /// `failing`: names of pipelines whose deploy call every worker answers with HTTP 500
+    Deploy { group: String, pipelines: Vec<(String, Option<String>)>, failing: Vec<String> },
     Teardown { nth_group: usize },
     Migrate { nth_placement: usize, target: String },
     Drain { worker: String },
@@ -214,7 +215,7 @@ impl Op {
             Op::Register { worker } => json!({"op": "POST workers/register", "worker": worker}),
             Op::Heartbeat { worker, events } => json!({"op": "POST workers/{id}/heartbeat (truthful pipelines_running)", "worker": worker, "events_processed": events}),
             Op::Deregister { worker } => json!({"op": "DELETE workers/{id}", "worker": worker}),
-            Op::Deploy { group, pipelines } => json!({"op": "POST pipeline-groups", "name": group, "pipelines": pipelines.iter().map(|(n, w)| json!({"name": n, "worker_affinity": w})).collect::<Vec<_>>()}),
+            Op::Deploy { group, pipelines, failing } => json!({"op": "POST pipeline-groups", "name": group, "pipelines": pipelines.iter().map(|(n, w)| json!({"name": n, "worker_affinity": w})).collect::<Vec<_>>(), "worker_answers_500_for": failing}),
             Op::Teardown { nth_group } => json!({"op": "DELETE pipeline-groups/{id}", "group": format!("{}-th existing group (sorted by name)", nth_group)}),
             Op::Migrate { nth_placement, target } => json!({"op": "POST pipelines/{group}/{pipeline}/migrate", "placement": format!("{}-th existing placement (sorted)", nth_placement), "target_worker": target}),
             Op::Drain { worker } => json!({"op": "POST workers/{id}/drain", "worker": worker}),
@@ -230,6 +231,7 @@ impl Op {
 }
 
 struct Env {
+    ctl: Arc<gatemock::Ctl>,
     mocks: BTreeMap<String, gatemock::GateWorker>,
     coord: SharedCoordinator,
     follower: Coordinator,
@@ -340,7 +342,12 @@ async fn exec(env: &Env, op: &Op, step_no: usize) -> Result<(String, J), String>
             let (st, _) = call(r, "DELETE", &format!("/api/v1/cluster/workers/{}", worker), None).await?;
             Ok((if st == 200 { "deregister".into() } else { "deregister(rejected)".into() }, json!({"status": st})))
         }
-        Op::Deploy { group, pipelines } => {
+        Op::Deploy { group, pipelines, failing } => {
+            for name in failing {
+                for w in env.mocks.keys() {
+                    env.ctl.fail.lock().unwrap().insert((w.clone(), name.clone()));
+                }
+            }
             let spec = json!({"name": group, "pipelines": pipelines.iter().map(|(n, w)| json!({"name": n, "source": format!("stream {}_out = E", n), "worker_affinity": w})).collect::<Vec<_>>()});
             let (st, body) = call(r, "POST", "/api/v1/cluster/pipeline-groups", Some(spec)).await?;
             Ok((if st == 201 { "deploy".into() } else { "deploy(rejected)".into() }, json!({"status": st, "placements": body["placements"], "error": body["error"]})))
@@ -457,7 +464,10 @@ fn gen_history(rng: &mut Rng) -> Vec<Op> {
                 if rng.chance(1, 4) {
                     ps.push((format!("p{}c", gcount), None));
                 }
-                Op::Deploy { group: format!("g{}", gcount), pipelines: ps }
+                // per-pipeline outcomes: now and then a pipeline (or the whole group) cannot be started anywhere
+                let all_fail = rng.chance(1, 6);
+                let failing: Vec<String> = ps.iter().filter(|_| all_fail || rng.chance(1, 5)).map(|(n, _)| n.clone()).collect();
+                Op::Deploy { group: format!("g{}", gcount), pipelines: ps, failing }
             }
             14..=16 => Op::Teardown { nth_group: rng.below(4) },
             17..=20 => Op::Migrate { nth_placement: rng.below(6), target: w(rng) },
@@ -732,7 +742,7 @@ with loopback mock workers; after every step snapshot / sync_from_raft / snapsho
             let coord: SharedCoordinator = Arc::new(tokio::sync::RwLock::new(c));
             let follower = Coordinator::with_raft(boot.raft.clone(), boot.shared_state.clone(), peer_map, None);
             let routes: Routes = varpulis_cluster::cluster_routes(coord.clone(), Arc::new(varpulis_cluster::RbacConfig::disabled()), None).map(|r| warp::Reply::into_response(r)).boxed();
-            let mut env = Env { mocks, coord, follower, routes, raft: boot.raft.clone() };
+            let mut env = Env { ctl: ctl.clone(), mocks, coord, follower, routes, raft: boot.raft.clone() };
             let start = Instant::now();
             let mut n = 0u64;
             let mut minimised: BTreeSet<String> = BTreeSet::new();
